@@ -221,7 +221,7 @@ def rule_a(ctx: Context, R: Reporter):
         # the ESS atom is computed from the posterior weights over the whole history
         for i in ess_atoms:
             call = cls[i][2]
-            rarg = ExprResolver(g.node).resolve(call.args[0], rn) if call.args else None
+            rarg = ExprResolver(g.node, proj=True).resolve(call.args[0], rn) if call.args else None
             ok_w = False
             if rarg is not None:
                 for c in ast.walk(rarg):
